@@ -44,9 +44,13 @@ pub enum VType {
     I128,
     Usize,
     Empty,
+    I8,
+    I16,
+    I64,
+    Isize,
 }
 
-pub const ALL_VTYPES: [VType; 9] = [
+pub const ALL_VTYPES: [VType; 13] = [
     VType::U8,
     VType::U16,
     VType::U32,
@@ -56,6 +60,10 @@ pub const ALL_VTYPES: [VType; 9] = [
     VType::I128,
     VType::Usize,
     VType::Empty,
+    VType::I8,
+    VType::I16,
+    VType::I64,
+    VType::Isize,
 ];
 
 #[derive(Clone, Copy, Debug, PartialEq, Eq, Hash, Serialize, Deserialize)]
@@ -139,6 +147,10 @@ simval_int!(u128);
 simval_int!(i32);
 simval_int!(i128);
 simval_int!(usize);
+simval_int!(i8);
+simval_int!(i16);
+simval_int!(i64);
+simval_int!(isize);
 
 impl SimVal for Empty {
     fn from_raw(_x: u64) -> Self {
@@ -430,6 +442,10 @@ pub fn build_ordered(spec: &Spec, order: &[usize], hook: fn()) -> Result<Box<dyn
         VType::I128 => build_t::<i128>(spec, order, hook),
         VType::Usize => build_t::<usize>(spec, order, hook),
         VType::Empty => build_t::<Empty>(spec, order, hook),
+        VType::I8 => build_t::<i8>(spec, order, hook),
+        VType::I16 => build_t::<i16>(spec, order, hook),
+        VType::I64 => build_t::<i64>(spec, order, hook),
+        VType::Isize => build_t::<isize>(spec, order, hook),
     }
 }
 
